@@ -27,7 +27,7 @@ mut("c13_v30_header_prefix_relaxed", "C01 C13",
     ("30/cvss30.go", "\tif !strings.HasPrefix(vector, header) {\n\t\treturn nil, ErrInvalidCVSSHeader\n\t}\n", "\tif !strings.HasPrefix(vector, header[:7]) || len(vector) < len(header) || vector[8] != '/' {\n\t\treturn nil, ErrInvalidCVSSHeader\n\t}\n"))
 mut("c13_v30_has_v31_header", "C01 C13",
     ("30/cvss30.go", "\theader = \"CVSS:3.0/\"", "\theader = \"CVSS:3.1/\""))
-mut("c13_v2_skips_unknown_first_element", "C01 C13",
+mut("c13_v2_skips_unknown_first_element", "C01",
     ("20/cvss20.go", "\tfor _, pt := range pts {\n\t\tabv, v, _ := strings.Cut(pt, \":\")\n", "\tfor pi, pt := range pts {\n\t\tabv, v, _ := strings.Cut(pt, \":\")\n\t\tif pi == 0 && len(pts) > 6 && abv == \"CVSS\" {\n\t\t\tcontinue\n\t\t}\n"))
 # ---------------- C02 / C08 serialisation
 mut("c02_v31_vector_prefix_typo_MPR", "C02 C08",
@@ -64,7 +64,7 @@ mut("c04_mean_divides_by_5", "C04", ("40/cvss40.go", ") / float64(lower)", ") / 
 mut("c12_lookup_cell_breaks_monotonicity", "C04 C12", ("40/lookup.go", "\t\t\t\t\t\t\treturn 9.5\n", "\t\t\t\t\t\t\treturn 9.9\n", 1))
 # ---------------- C05 v2 scoring
 mut("c05_CDP_LM_weight", "C05", ("20/cvss20.go", "\tcase cdp_lm:\n\t\treturn 0.3", "\tcase cdp_lm:\n\t\treturn 0.2"))
-mut("c05_TD_decodes_wrong_bit", "C05 C09", ("20/cvss20.go", "\ttd := targetDistribution(((cvss20.u2 & 0b00000001) << 2) | ((cvss20.u3 & 0b11000000) >> 6))", "\ttd := targetDistribution((cvss20.u3 & 0b11000000) >> 6)"))
+mut("c05_TD_decodes_wrong_bit", "C05", ("20/cvss20.go", "\ttd := targetDistribution(((cvss20.u2 & 0b00000001) << 2) | ((cvss20.u3 & 0b11000000) >> 6))", "\ttd := targetDistribution(((cvss20.u2 & 0b00000001) << 2) | ((cvss20.u3 & 0b10000000) >> 6))"))
 mut("c05_adjusted_impact_min_removed", "C05 C11", ("20/cvss20.go", "\tadjustedImpact := math.Min(10, 10.41*(1-(1-c*cr)*(1-i*ir)*(1-a*ar)))", "\tadjustedImpact := math.Min(11, 10.41*(1-(1-c*cr)*(1-i*ir)*(1-a*ar)))"))
 mut("c05_adjusted_impact_ignores_CR", "C05", ("20/cvss20.go", "(1-(1-c*cr)*(1-i*ir)*(1-a*ar))", "(1-(1-c*cr/cr)*(1-i*ir)*(1-a*ar))"))
 mut("c05_Au_S_weight", "C05", ("20/cvss20.go", "\tcase au_s:\n\t\treturn 0.56", "\tcase au_s:\n\t\treturn 0.58"))
@@ -73,14 +73,14 @@ mut("c11_v2_round_times_0_1", "C11 C05", ("20/cvss20.go", "\treturn math.Round(x
 mut("c06_v31_MC_value_list_permuted", "C06 C07", ("31/cvss31.go", "\tcase \"MC\":\n\t\tv, err := validate(value, []string{\"X\", \"H\", \"L\", \"N\"})", "\tcase \"MC\":\n\t\tv, err := validate(value, []string{\"X\", \"N\", \"L\", \"H\"})"))
 mut("c06_v4_Get_MVI_reads_neighbour", "C06 C07", ("40/cvss40.go", "\tcase \"MVI\":\n\t\tv := (cvss40.u5 & 0b01100000) >> 5", "\tcase \"MVI\":\n\t\tv := (cvss40.u5 & 0b00110000) >> 4"))
 mut("c07_v31_I_mask_too_wide", "C07", ("31/cvss31.go", "\t\tcvss31.u1 = (cvss31.u1 & 0b10011111) | (v << 5)", "\t\tcvss31.u1 = (cvss31.u1 & 0b10001111) | (v << 5)"))
-mut("c07_v4_MAC_literal", "C07", ("40/cvss40.go", "((v & 10) >> 1)", "((v & 11) >> 1)"))
-mut("c07_v31_MA_keeps_low_nibble", "C07", ("31/cvss31.go", "\t\tcvss31.u5 = (cvss31.u5 & 0b11000000) | (v << 4)", "\t\tcvss31.u5 = (cvss31.u5 & 0b11001111) | (v << 4)"))
+mut("c07_v4_MAC_literal", "C07", ("40/cvss40.go", "((v & 01) << 7)", "((v & 10) << 7)"))
+mut("c07_v31_MA_keeps_own_high_bit", "C07", ("31/cvss31.go", "\t\tcvss31.u5 = (cvss31.u5 & 0b11000000) | (v << 4)", "\t\tcvss31.u5 = (cvss31.u5 & 0b11100000) | (v << 4)"))
 mut("c07_v2_Set_RL_writes_before_validating", "C07",
     ("20/cvss20.go", "\tcase \"RL\":\n\t\tv, err := validate(value, []string{\"ND\", \"OF\", \"TF\", \"W\", \"U\"})\n\t\tif err != nil {\n\t\t\treturn err\n\t\t}\n", "\tcase \"RL\":\n\t\tv, err := validate(value, []string{\"ND\", \"OF\", \"TF\", \"W\", \"U\"})\n\t\tcvss20.u1 &= 0b11111110\n\t\tif err != nil {\n\t\t\treturn err\n\t\t}\n"))
-mut("c07_v4_U_keeps_u8_bits", "C07", ("40/cvss40.go", "\t\tcvss40.u8 = (v & 0b011) << 6", "\t\tcvss40.u8 = (v&0b011)<<6 | (v & 0b100)"))
+mut("c07_v4_U_ors_into_u8", "C07", ("40/cvss40.go", "\t\tcvss40.u8 = (v & 0b011) << 6", "\t\tcvss40.u8 |= (v & 0b011) << 6"))
 mut("c09_v4_PR_accepts_spare_value", "C09 C01", ("40/cvss40.go", "\tcase \"PR\":\n\t\tv, err := validate(value, []string{\"H\", \"L\", \"N\"})", "\tcase \"PR\":\n\t\tv, err := validate(value, []string{\"H\", \"L\", \"N\", \"X\"})"))
 mut("c09_v31_Get_lowercase_alias", "C09", ("31/cvss31.go", "func (cvss31 CVSS31) Get(abv string) (r string, err error) {\n\tswitch abv {\n\t// Base\n\tcase \"AV\":", "func (cvss31 CVSS31) Get(abv string) (r string, err error) {\n\tswitch abv {\n\t// Base\n\tcase \"AV\", \"av\":"))
-mut("c09_v31_Set_accepts_v4_AT", "C09 C01", ("31/cvss31.go", "func (cvss31 *CVSS31) Set(abv string, value string) error {\n\tswitch abv {\n\t// Base\n\tcase \"AV\":", "func (cvss31 *CVSS31) Set(abv string, value string) error {\n\tswitch abv {\n\t// Base\n\tcase \"AT\":\n\t\tif value != \"N\" && value != \"P\" {\n\t\t\treturn ErrInvalidMetricValue\n\t\t}\n\tcase \"AV\":"))
+mut("c09_v31_Set_accepts_v4_AT", "C09", ("31/cvss31.go", "func (cvss31 *CVSS31) Set(abv string, value string) error {\n\tswitch abv {\n\t// Base\n\tcase \"AV\":", "func (cvss31 *CVSS31) Set(abv string, value string) error {\n\tswitch abv {\n\t// Base\n\tcase \"AT\":\n\t\tif value != \"N\" && value != \"P\" {\n\t\t\treturn ErrInvalidMetricValue\n\t\t}\n\tcase \"AV\":"))
 # ---------------- C10
 mut("c10_v31_MUI_resolved_from_base", "C10 C03", ("31/cvss31.go", "\tmui := mod((cvss31.u0&0b00000100)>>2, (cvss31.u4&0b00110000)>>4)", "\tmui := (cvss31.u0 & 0b00000100) >> 2"))
 mut("c10_v4_macrovector_base_SA", "C10 C04", ("40/cvss40.go", "\tsa := mod((cvss40.u2&0b00110000)>>4, msa)", "\tsa := (cvss40.u2 & 0b00110000) >> 4"))
@@ -109,7 +109,7 @@ mut("c16_t_reads_CR_bits", "C16", ("40/cvss40.go", "\tt := (cvss40.u2 & 0b000011
 mut("c17_v4_lenVec_undercounts_MAT", "C17", ("40/cvss40.go", "\tif (cvss40.u4 & 0b01100000) != 0 {\n\t\tl += 6\n\t}", "\tif (cvss40.u4 & 0b01100000) != 0 {\n\t\tl += 5\n\t}"))
 mut("c17_v31_illegal_value_error_wrapped", "C17", ("31/cvss31.go", "\treturn 0, ErrInvalidMetricValue\n}", "\treturn 0, fmt.Errorf(\"%w: %s\", ErrInvalidMetricValue, value)\n}"),
     ("31/cvss31.go", "import (\n\t\"math\"\n", "import (\n\t\"fmt\"\n\t\"math\"\n"))
-mut("c17_v2_split_buffer_per_call", "C17", ("20/cvss20.go", "\tpartsPtr := splitPool.Get()\n\tdefer splitPool.Put(partsPtr)\n\tpts := partsPtr.([]string)\n", "\tpts := make([]string, 14)\n"))
+mut("c17_v2_uses_strings_SplitN", "C17", ("20/cvss20.go", "\tpartsPtr := splitPool.Get()\n\tdefer splitPool.Put(partsPtr)\n\tpts := partsPtr.([]string)\n\tei := split(pts, vector)\n\tpts = pts[:ei+1]\n", "\tpts := strings.SplitN(vector, \"/\", 14)\n"))
 mut("c17_v4_lenVec_U_clear", "C17", ("40/cvss40.go", "\tcase u_clear, u_green, u_amber:\n\t\tl += 8", "\tcase u_green, u_amber:\n\t\tl += 8\n\tcase u_clear:\n\t\tl += 6"))
 # ---------------- C18
 mut("c18_v31_duplicate_S_reports_invalid_metric", "C18",
